@@ -7,6 +7,7 @@
  *   u64 <hex>            janet_scan_uint64                                     -> "ok <dec>" | "err"
  *   p17 <bits16>         janet_buffer_dtostr, %j, %.17g (formatc and buffer_format)  -> "<text> x5 <bits16 read back>"
  *   pint <bits16>        string / describe / %v %q %p %j %V %d of an integer-valued double -> "<text> x12 <bits16 read back>"
+ *   pstr <bits16>        number_to_string_b (string, describe) on any finite double -> "<text> <text>"
  *   s64rt <dec> / u64rt <dec>   tostring of a boxed int, then scan back        -> "<text> ok <dec>" | "<text> err"
  *   big <base> <ex> <hex>   internal state after the scaling loops of convert() -> "n first d0 d1 ..." (digit array dump)
  */
@@ -118,6 +119,16 @@ int main(void) {
             }
             printf(" ");
             readback(s, janet_string_length(s));
+            printf("\n");
+        } else if (!strncmp(line, "pstr ", 5)) {
+            /* number_to_string_b on any finite double: string and describe */
+            uint64_t u = strtoull(line + 5, NULL, 16);
+            Janet x = janet_wrap_number(of_bits(u));
+            const uint8_t *s = janet_to_string(x);
+            const uint8_t *t = janet_description(x);
+            fwrite(s, 1, janet_string_length(s), stdout);
+            printf(" ");
+            fwrite(t, 1, janet_string_length(t), stdout);
             printf("\n");
         } else if (!strncmp(line, "s64rt ", 6)) {
             int64_t x = (int64_t) strtoll(line + 6, NULL, 10);
